@@ -2,3 +2,4 @@
 import AcryoVerif.Props.C02
 import AcryoVerif.Props.C06
 import AcryoVerif.Props.C08
+import AcryoVerif.Props.C16
